@@ -126,6 +126,85 @@ def v2Check (t : SessV2) (now reqVerb reqCnr : Nat) : TokRes :=
   else if !v2Admits t reqVerb reqCnr then .wrongVerb
   else .ok
 
+/-! ## Session token V2 with a delegation chain
+
+A delegated token carries its origin token (`Token.Origin`), that one its own origin, ... down to the root token whose
+issuer (`OriginalIssuer`) is the account the request is judged as. A chain is the outermost token and the list of its
+origins, nearest first (root last). Followed here:
+
+* SDK `Token.Validate` = `validate(depth)` from depth 0: depth bound (`depth > MaxDelegationDepth` refuses, so at most
+  `MaxDelegationDepth` origins), `validateFields` of every token, a `final` token may not be an origin,
+  `validateDelegatedContexts` (merge walk over the two sorted context lists, verbs by `findUnauthorizedVerb`), the issuer
+  must be a (user id) subject of its origin, the origin's lifetime must enclose the token's;
+* `AuthenticateTokenV2` (internal/crypto/tokens.go): the origin first (recursively, WITHOUT any depth bound), then the
+  token itself - every token of the chain must be signed by its own issuer's key;
+* `VerifySessionTokenMessage`: validation, authentication, then lifetime and verb of the OUTERMOST token only.
+
+NNS subjects are not modelled (subjects are accounts). -/
+
+/-- `session/v2.MaxDelegationDepth` (tied by the `v2depth` line of the correspondence run) -/
+def maxDelegationDepth : Nat := 4
+
+/-- one token of a chain: the fields of `SessV2` plus the `final` flag -/
+structure LinkV2 where
+  t : SessV2
+  final : Bool := false
+  deriving Repr
+
+/-- `findUnauthorizedVerb(required, available) != nil`: two-pointer walk over the two (sorted) verb lists -/
+def unauthVerb : List Nat → List Nat → Bool
+  | [], _ => false
+  | _ :: _, [] => true
+  | r :: rs, a :: as => if r == a then unauthVerb rs as else if r < a then true else unauthVerb (r :: rs) as
+
+/-- `validateDelegatedContexts`: `os` = the origin's contexts from `originIdx` on, `wild` = the verbs of the origin's
+wildcard context if it has one -/
+def delegCtxOK (wild : Option (List Nat)) : List CtxV2 → List CtxV2 → Bool
+  | [], _ => true
+  | d :: ds, os =>
+    let os' := os.dropWhile (fun o => o.cnr < d.cnr)
+    let viaWild : Bool := match wild with
+      | some w => !unauthVerb d.verbs w && delegCtxOK wild ds os'
+      | none => false
+    match os' with
+    | o :: _ => if o.cnr == d.cnr then !unauthVerb d.verbs o.verbs && delegCtxOK wild ds os' else viaWild
+    | [] => viaWild
+
+def wildVerbs : List CtxV2 → Option (List Nat)
+  | c :: _ => if c.cnr == 0 then some c.verbs else none
+  | [] => none
+
+/-- what `validate` demands of a token `x` and its origin `o` (before descending into `o`) -/
+def linkOK (x o : LinkV2) : Bool :=
+  delegCtxOK (wildVerbs o.t.contexts) x.t.contexts o.t.contexts   -- verbs and containers only narrow
+    && o.t.subjects.contains x.t.issuer                            -- the origin named this token's issuer
+    && !(o.t.nbf > x.t.nbf || o.t.exp < x.t.exp)                   -- the origin's lifetime encloses this token's
+
+/-- `Token.validate(depth)` on token `x` with origins `os` -/
+def v2ChainValid : LinkV2 → List LinkV2 → Nat → Bool
+  | x, [], depth => !(depth > maxDelegationDepth) && v2FieldsOK x.t && !(x.final && depth > 0)
+  | x, o :: os, depth =>
+    !(depth > maxDelegationDepth) && v2FieldsOK x.t && !(x.final && depth > 0) && linkOK x o && v2ChainValid o os (depth + 1)
+
+/-- `AuthenticateTokenV2`: the origin chain first, then the token itself; no depth bound -/
+def v2ChainAuth : LinkV2 → List LinkV2 → Bool
+  | x, [] => authOK x.t.sigOK x.t.signer x.t.issuer
+  | x, o :: os => v2ChainAuth o os && authOK x.t.sigOK x.t.signer x.t.issuer
+
+/-- `Token.OriginalIssuer`: the issuer of the root token -/
+def originalIssuer : LinkV2 → List LinkV2 → Nat
+  | x, [] => x.t.issuer
+  | _, o :: os => originalIssuer o os
+
+/-- `VerifySessionTokenMessage` for a token with its delegation chain -/
+def v2ChainCheck (x : LinkV2) (os : List LinkV2) (now reqVerb reqCnr : Nat) : TokRes :=
+  if !v2ChainValid x os 0 then .invalid
+  else if !v2ChainAuth x os then .authFail
+  else if x.t.exp < now then .expired
+  else if !(x.t.iat ≤ now && x.t.nbf ≤ now) then .notYetValid
+  else if !v2Admits x.t reqVerb reqCnr then .wrongVerb
+  else .ok
+
 /-! ## Bearer token -/
 
 /-- `VerifyBearerTokenMessage` -/
